@@ -26,7 +26,8 @@ CHECKS["C06"] = {
 CHECKS["C01"] = {
     "level": "exploration",
     "subs": [
-        _sub("TestC01_Converge", 2400, 100000, sq=16, st=16),
+        _sub("TestC01_Converge", 2400, 100000, sq=12, st=12),
+        _sub("TestC01_MergeLaws", 1600, 60000, sq=4, st=4),
     ],
 }
 
@@ -61,7 +62,8 @@ CHECKS["C09"] = {
 CHECKS["C10"] = {
     "level": "exploration",
     "subs": [
-        _sub("TestC10_Reclaim", 1000, 60000, sq=16, st=16),
+        _sub("TestC10_Reclaim", 1000, 60000, sq=12, st=12),
+        _sub("TestC10_KVCutoff", 3000, 120000, sq=4, st=4),
     ],
 }
 
